@@ -383,3 +383,34 @@ Print Assumptions C07_no_other_key_opens_src.
 (* non-vacuity: RFC 7748's keys, HKDF-SHA256, AES-256-GCM through the translated store / retrieve / count_keys *)
 Check SrcTie3CryptoEx.src_ecies_roundtrip.
 Check SrcTie3CryptoEx.kdf_src_is_hkdf.
+
+(* ---------- work package cfgT: encryption is stacked iff enabled and only with a recipient; a reader without the key is refused before any layer constructor runs (nothing read past the header); builders extend the key lists (translated code, gen/Src3f.v) ---------- *)
+From MLA Require Config ConfigProofs SrcTie3Cfg SrcTie3CfgR SrcTie3CfgEx.
+From MLAGen Require Src3f.
+Theorem C07_cfg_writer_refuses_no_recipient_src : ltac:(let t := type of SrcTie3Cfg.writer_refuses_no_recipient_src in exact t).
+Proof. exact SrcTie3Cfg.writer_refuses_no_recipient_src. Qed.
+Print Assumptions C07_cfg_writer_refuses_no_recipient_src.
+Theorem C07_cfg_writer_from_config_src : ltac:(let t := type of SrcTie3Cfg.writer_from_config_src in exact t).
+Proof. exact SrcTie3Cfg.writer_from_config_src. Qed.
+Print Assumptions C07_cfg_writer_from_config_src.
+Theorem C07_cfg_add_public_keys_src : ltac:(let t := type of SrcTie3Cfg.add_public_keys_src in exact t).
+Proof. exact SrcTie3Cfg.add_public_keys_src. Qed.
+Print Assumptions C07_cfg_add_public_keys_src.
+Theorem C07_cfg_check_src : ltac:(let t := type of SrcTie3Cfg.check_src in exact t).
+Proof. exact SrcTie3Cfg.check_src. Qed.
+Print Assumptions C07_cfg_check_src.
+Theorem C07_cfg_add_private_keys_src : ltac:(let t := type of SrcTie3CfgR.add_private_keys_src in exact t).
+Proof. exact SrcTie3CfgR.add_private_keys_src. Qed.
+Print Assumptions C07_cfg_add_private_keys_src.
+Theorem C07_cfg_load_persistent_cfg_src : ltac:(let t := type of SrcTie3CfgR.load_persistent_cfg_src in exact t).
+Proof. exact SrcTie3CfgR.load_persistent_cfg_src. Qed.
+Print Assumptions C07_cfg_load_persistent_cfg_src.
+Theorem C07_cfg_reader_key_check_first_src : ltac:(let t := type of SrcTie3CfgR.reader_key_check_first_src in exact t).
+Proof. exact SrcTie3CfgR.reader_key_check_first_src. Qed.
+Print Assumptions C07_cfg_reader_key_check_first_src.
+Theorem C07_cfg_failsafe_key_check_first_src : ltac:(let t := type of SrcTie3CfgR.failsafe_key_check_first_src in exact t).
+Proof. exact SrcTie3CfgR.failsafe_key_check_first_src. Qed.
+Print Assumptions C07_cfg_failsafe_key_check_first_src.
+Theorem C07_cfg_reader_from_config_examples : ltac:(let t := type of SrcTie3CfgEx.reader_from_config_examples in exact t).
+Proof. exact SrcTie3CfgEx.reader_from_config_examples. Qed.
+Print Assumptions C07_cfg_reader_from_config_examples.
